@@ -5,6 +5,7 @@ import Ww.Driver.C12
 import Ww.Driver.C15
 import Ww.Driver.C16
 import Ww.Driver.C02
+import Ww.Driver.C03
 open Ww.Driver
 
 def dispatch (l : Line) : List Verdict :=
@@ -24,6 +25,7 @@ def dispatch (l : Line) : List Verdict :=
   | "cors" => handleCors l
   | "proxycmds" => handleProxyCmds l
   | "cb" => handleCb l
+  | "idtok" => handleIdTok l
   | k => [Verdict.bad s!"unknown kind {k}"]
 
 partial def loop (h : IO.FS.Stream) (out : IO.FS.Stream) (i : Nat) : IO Unit := do
